@@ -806,6 +806,9 @@ func (x *Exec) calleeFrameDuty(st *State, l loc, key string, pos token.Pos) {
 		return
 	}
 	if l.mem {
+		if l.r != nil && l.r.IsInt() && l.r.Val.Sign() == 0 {
+			return // the memory of a nil slice: there is none
+		}
 		x.frameDutyRegion(st, l.root, l.r, pos, what)
 		return
 	}
@@ -1627,6 +1630,85 @@ func (x *Exec) staticRecursion(st *State) {
 		}
 	}
 	scan(x.fn)
+}
+
+// staticLoopPolls: `loop n ... polls <field>`: a goroutine that is stopped through a channel must look at that channel on
+// every trip round its loop, whatever the outcome of what it does in between (a read that keeps failing, a timeout).
+// Structural duty on the control-flow graph: inside the natural loop, no cycle through the header avoids the blocks
+// that select on / receive from the channel loaded from that field. (That the goroutine then really exits, and that
+// nothing blocks for ever inside an iteration, is scheduling and liveness: not decided.)
+func (x *Exec) staticLoopPolls(st *State) {
+	if x.fc == nil {
+		return
+	}
+	fi := x.p.info(x.fn)
+	isStop := func(v ssa.Value, field string) bool {
+		u, ok := v.(*ssa.UnOp)
+		if !ok || u.Op != token.MUL {
+			return false
+		}
+		fa, ok := u.X.(*ssa.FieldAddr)
+		if !ok {
+			return false
+		}
+		stt, ok := fa.X.Type().Underlying().(*types.Pointer).Elem().Underlying().(*types.Struct)
+		return ok && stt.Field(fa.Field).Name() == field
+	}
+	for hdr, ord := range fi.headers {
+		lc := x.fc.Loops[ord]
+		if lc == nil || lc.Polls == "" {
+			continue
+		}
+		in := fi.loopBlks[hdr]
+		polls := map[int]bool{}
+		for _, b := range x.fn.Blocks {
+			if !in[b.Index] {
+				continue
+			}
+			for _, ins := range b.Instrs {
+				switch i := ins.(type) {
+				case *ssa.Select:
+					for _, s := range i.States {
+						if isStop(s.Chan, lc.Polls) {
+							polls[b.Index] = true
+						}
+					}
+				case *ssa.UnOp:
+					if i.Op == token.ARROW && isStop(i.X, lc.Polls) {
+						polls[b.Index] = true
+					}
+				}
+			}
+		}
+		ok := true
+		if !polls[hdr] {
+			// is the header reachable from itself inside the loop without passing a polling block?
+			seen := map[int]bool{}
+			var dfs func(b *ssa.BasicBlock) bool
+			dfs = func(b *ssa.BasicBlock) bool {
+				for _, s := range b.Succs {
+					if !in[s.Index] || polls[s.Index] {
+						continue
+					}
+					if s.Index == hdr {
+						return true
+					}
+					if !seen[s.Index] {
+						seen[s.Index] = true
+						if dfs(s) {
+							return true
+						}
+					}
+				}
+				return false
+			}
+			ok = !dfs(x.fn.Blocks[hdr])
+		}
+		if !ok {
+			x.oblige(st, "loop-polls", fmt.Sprintf("loop%d@%s", ord, x.pos(x.fn.Blocks[hdr].Instrs[0].Pos())),
+				"a path around the loop does not look at the stop channel "+lc.Polls+": the goroutine cannot be stopped while it takes that path", lc.PollsProps, tFalse)
+		}
+	}
 }
 
 // shortIface: "github.com/pion/stun/v3.ClientAgent.Stop" -> "ClientAgent.Stop" for interfaces of the verified packages
